@@ -110,7 +110,7 @@ edzed = seams.install()
 
 PROP = 'C06'
 LEVEL = 'fault_enumeration'
-RUNS = {'quick': 6000, 'thorough': 400000}
+RUNS = {'quick': 10000, 'thorough': 400000}
 CHUNK = 50
 CHUNK_TIMEOUT = 600
 RULE = ("one run = one generated history (circuit of 1-4 blocks out of persistent Input, Counter, "
@@ -1203,6 +1203,10 @@ def restart(R, plan, k, snap, wall_us, stats, fired_names=()):
             if not started:
                 if garbage_key is not None:
                     R.fired('garbage_start_failed')
+                elif sim.failed:
+                    # a restored timer fired within microseconds of the start and the generated
+                    # FSM failed in its own timed event before wait_init() could return
+                    R.fired('restart_ended_by_fsm_error')
                 else:
                     sim.violate(f"C06/restart-failed/{type(circuit.error).__name__}",
                                 f"the restart from the storage failed: {canon(err)}")
